@@ -49,7 +49,7 @@ func init() {
 		NotDecided: "sequence semantics of the store against a map model; the file store (pkg/ref/fs is imported only by tests and is outside the production call graph).",
 	}
 	props["C16"] = &propSpec{
-		Rules:      []string{"C16-a", "C16-b", "C16-c", "C16-d", "C16-e", "C16-f", "C16-g", "C16-h", "C16-i"},
+		Rules:      []string{"C16-a", "C16-b", "C16-c", "C16-d", "C16-e", "C16-f", "C16-g", "C16-h", "C16-i", "C16-j"},
 		Decides:    "Decides that, for goroutines started in several instances on shared operands (go in a loop, or in a function called from a loop), every field/variable/map write reached from the shared operands is under a mutex reached from the same operands, inside sync.Once.Do, atomic or a channel operation; that SingleTracker's concurrently read counters are only accessed atomically; that the ingest pool's error channel is sized by the same value as its worker loop and a worker sends at most once; that no error is dropped in pipeline goroutines. Does not decide termination, deadlock freedom, equality with the sequential result or absence of every race. Also decided: workers read lock-guarded shared fields under the lock; no error send after closing the data channel; data channel fields are closed by their sender.",
 		NotDecided: "termination, deadlock freedom, equality with the sequential result, absence of every race (no may-happen-in-parallel analysis for main-vs-goroutine pairs).",
 	}
